@@ -361,6 +361,11 @@ class Case:
             kind = self.ds.choose(4, f"pt[{i}].kind", (0.6, 0.25, 0.1, 0.05))
             v = _val(pcls, True, self.ds.choose(10, f"pt[{i}]"), i)
             pt.append(v if kind == 0 else (0.0 if kind == 1 else (complex(v.real, 0.0) if kind == 2 else v * 0.0 + 1.0)))
+        # the whole point may sit at rounding-level magnitudes (non-zero coordinates of modulus 1e-16 .. 1e-20): the value is then
+        # tiny but defined, and is judged relative to the sum of |terms| like any other
+        sc = self.ds.pick([1.0, 1e-16, 1e-20, 3e-9], "point.scale", (0.85, 0.06, 0.04, 0.05)) if self.op in ("evaluate", "l_evaluate") else 1.0
+        if sc != 1.0:
+            pt = [x * sc for x in pt]
         if self.ds.flag("point.float64", 0.2):
             return np.array([complex(x).real for x in pt], dtype=np.float64)   # a real-typed point
         return np.array(pt, dtype=np.complex128)
